@@ -183,6 +183,11 @@ func (m *Machine) Decide(key string, n int, note string) int {
 	if v, ok := m.Facts[key]; ok {
 		return v
 	}
+	if strings.HasPrefix(key, "streq:") && m.constPair(key) {
+		// the generator compares the TEXT of a keyword value (a pattern) with a constant: both outcomes are worlds, so that what it
+		// does for that particular text is checked against what that text means
+		return m.decideGeneric(key, n, note)
+	}
 	if strings.HasPrefix(key, "streq:") {
 		for suf, v := range m.FactPrefixDefault {
 			if strings.HasSuffix(key, suf) {
@@ -237,6 +242,10 @@ func (m *Machine) Decide(key string, n int, note string) int {
 		}
 		return choice
 	}
+	return m.decideGeneric(key, n, note)
+}
+
+func (m *Machine) decideGeneric(key string, n int, note string) int {
 	if v, ok := m.decided[key]; ok {
 		return v
 	}
@@ -250,6 +259,29 @@ func (m *Machine) Decide(key string, n int, note string) int {
 	m.decided[key] = choice
 	m.Forks = append(m.Forks, ForkSite{Key: key, N: n, Note: note, Pos: m.curPos()})
 	return choice
+}
+
+// constPair: the equality fact relates the whole, untransformed text of a keyword-value atom (Facts["forkconst"]) to a
+// non-empty constant.
+func (m *Machine) constPair(key string) bool {
+	_, _, ok := ConstPairOf(key, func(id int) bool { a := m.atoms[id]; return a != nil && a.Facts["forkconst"] == "yes" })
+	return ok
+}
+
+// ConstPairOf parses "streq:\x00<id>|\x00==<literal>" (either order).
+func ConstPairOf(key string, want func(id int) bool) (int, string, bool) {
+	body := strings.TrimPrefix(key, "streq:")
+	l, r, ok := strings.Cut(body, "==")
+	if !ok {
+		return 0, "", false
+	}
+	for _, pr := range [][2]string{{l, r}, {r, l}} {
+		var id int
+		if n, _ := fmt.Sscanf(pr[0], "\x00%d|\x00", &id); n == 1 && pr[0] == fmt.Sprintf("\x00%d|\x00", id) && pr[1] != "" && !strings.Contains(pr[1], "\x00") && want(id) {
+			return id, pr[1], true
+		}
+	}
+	return 0, "", false
 }
 
 // ---- globals ---------------------------------------------------------------
